@@ -3,7 +3,12 @@
     stream `c17`       : (c17 (regs R…) xMDL (props (xKEY V)…)) → true | false
                          R ::= (d MIN DFLT) | (p xPATH MIN DFLT); MIN ::= debug|info|warn|error; DFLT ::= none | MIN
                          V ::= (typed MIN) | (text xSTR) | (int N) | (bool B)
+                         R may also be (db MIN) | (pb xPATH MIN): a bare `Level` through `From<Level> for MinLevelFilter`
+                         (c17s (regs S…) xMDL (props …)), S ::= (d SEV SDFLT) | (p xPATH SEV SDFLT), SEV ::= 0..7,
+                         SDFLT ::= none | SEV: the same map at the harness's user level type `Sev` (Model/Level.lean `sevType`)
     stream `c17_min`   : (min MIN DFLT (props …)) → true | false            (MinLevelFilter alone)
+                         (minb MIN (props …))  a bare level converted by From<Level>
+                         (mins SEV SDFLT (props …))  MinLevelFilter<Sev>
     stream `c17_parse` : (lvl xSTR) → debug | info | warn | error | none     (Level::from_str)
 -/
 import EmitModel.Base.Sexp
@@ -34,6 +39,29 @@ def reg? : Sexp → Option Reg
     let path ← p.str?
     let f ← minF? mn df
     pure (Reg.path path f)
+  | .list [.atom "db", mn] => (level? mn).map fun l => Reg.dflt (MinF.ofLevel l)
+  | .list [.atom "pb", p, mn] => do
+    let path ← p.str?
+    let l ← level? mn
+    pure (Reg.path path (MinF.ofLevel l))
+  | _ => none
+
+def sev? (s : Sexp) : Option Nat := s.nat?.bind fun n => if n ≤ 7 then some n else none
+
+def sevF? (mn df : Sexp) : Option (MinG Nat) := do
+  let m ← sev? mn
+  let d ← match df with
+    | .atom "none" => some none
+    | d => (sev? d).map some
+  pure ⟨m, d⟩
+
+/-- a registration at the user level type: (segments, filter) -/
+def sevReg? : Sexp → Option (List String × MinG Nat)
+  | .list [.atom "d", mn, df] => (sevF? mn df).map fun f => ([], f)
+  | .list [.atom "p", p, mn, df] => do
+    let path ← p.str?
+    let f ← sevF? mn df
+    pure (segments path, f)
   | _ => none
 
 def val? : Sexp → Option LvlVal
@@ -82,6 +110,14 @@ def runC17 (line : String) : String :=
       let sig := if regs.isEmpty then "trivial" else s!"hit={hit},lvl={lvlSig props},regs={min regs.length 4}"
       s!"{r}\t{sig}"
     | _, _, _ => "bad-op"
+  | some (.list [.atom "c17s", .list (.atom "regs" :: rs), mdl, ps]) =>
+    match rs.mapM sevReg?, mdl.str?, props? ps with
+    | some regs, some mdl, some props =>
+      let r := pathMapMatchesG (fun f => f.matches sevType props) regs mdl
+      let hit := (Node.lookup compare (buildG regs) (segments mdl)).isSome
+      let sig := if regs.isEmpty then "trivial" else s!"sev,hit={hit},lvl={lvlSig props},regs={min regs.length 4}"
+      s!"{r}\t{sig}"
+    | _, _, _ => "bad-op"
   | _ => "bad-op"
 
 def runMin (line : String) : String :=
@@ -89,6 +125,14 @@ def runMin (line : String) : String :=
   | some (.list [.atom "min", mn, df, ps]) =>
     match minF? mn df, props? ps with
     | some f, some props => s!"{f.matches props}\t{lvlSig props},dflt={f.dflt.isSome}"
+    | _, _ => "bad-op"
+  | some (.list [.atom "minb", mn, ps]) =>
+    match level? mn, props? ps with
+    | some l, some props => s!"{(MinF.ofLevel l).matches props}\tbare,{lvlSig props}"
+    | _, _ => "bad-op"
+  | some (.list [.atom "mins", mn, df, ps]) =>
+    match sevF? mn df, props? ps with
+    | some f, some props => s!"{f.matches sevType props}\tsev,{lvlSig props},dflt={f.dflt.isSome}"
     | _, _ => "bad-op"
   | _ => "bad-op"
 
